@@ -254,7 +254,8 @@ class SetV(V):
     def qfacts(self):
         (srt,) = self.layout.sorts()
         x = z3.Const("x!set", srt)
-        return [self.card >= 0, z3.ForAll([x], z3.Implies(z3.Select(self.mem, x), self.card >= 1))]
+        wit = fresh("wit", srt)  # a non-empty container has a member
+        return [self.card >= 0, z3.ForAll([x], z3.Implies(z3.Select(self.mem, x), self.card >= 1)), z3.Implies(self.card > 0, z3.Select(self.mem, wit))]
 
 
 class LockV(V):
@@ -343,7 +344,8 @@ class DictV(V):
 
     def qfacts(self):
         k = z3.Const("k!dict", self.ksort)
-        fs = [self.card >= 0, z3.ForAll([k], z3.Implies(z3.Select(self.mem, k), self.card >= 1))]
+        wit = fresh("wit", self.ksort)  # a non-empty container has a member
+        fs = [self.card >= 0, z3.ForAll([k], z3.Implies(z3.Select(self.mem, k), self.card >= 1)), z3.Implies(self.card > 0, z3.Select(self.mem, wit))]
         if self.stamp is not None:
             k2 = z3.Const("k2!dict", self.ksort)
             fs.append(z3.ForAll([k], z3.Implies(z3.Select(self.mem, k), z3.And(z3.Select(self.stamp, k) < self.nstamp, z3.Select(self.stamp, k) >= 0))))
